@@ -158,6 +158,7 @@ def evaluate(case: Dict[str, Any]) -> Outcome:
                 out.classes.add("year_without_acquisition")
         # ---- per asset-year sheet
         closing: Dict[Tuple[str, int], Tuple[int, int]] = {}
+        net_income: Dict[Tuple[str, int], int] = {}
         opening: Dict[Tuple[str, int], Tuple[Any, Any]] = {}
         for (asset, year), name in asset_sheet.items():
             rows = sheets[name]
@@ -202,6 +203,12 @@ def evaluate(case: Dict[str, Any]) -> Outcome:
                 out.fail("jp_closing_cells_not_found", f"sheet '{name}': closing-balance cells (=E<r>+F<r>-H<r> over =I<r>*G<r+1>) not found")
                 return out
             closing[(asset, year)] = (found + 1, found + 2)  # 1-based rows of the crypto / yen closing cells
+            # net income cell of the sheet, recognised by its own formula =I<n+2>-I<n+3> (n = its 1-based row)
+            for r0 in range(found + 2, len(rows)):
+                formula = rows[r0][8].formula if len(rows[r0]) > 8 else None
+                if formula and re.sub(r"^of:", "", formula) == f"=I{r0 + 3}-I{r0 + 4}":
+                    net_income[(asset, year)] = r0 + 1
+                    break
             crypto_open = rows[found][4]
             yen_open = rows[found + 1][4]
             opening[(asset, year)] = (crypto_open.formula or crypto_open.value, yen_open.formula or yen_open.value)
@@ -239,6 +246,19 @@ def evaluate(case: Dict[str, Any]) -> Outcome:
                         if not formula or target is None or not re.sub(r"^of:", "", formula).startswith(f"='{target}'."):
                             out.fail("jp_summary_line_wrong_target", f"sheet '{name}' row {i + 1} (asset {first}): formulas {formulas} do not all point at sheet '{target}'")
                             return out
+                    # ... and at that sheet's result cells: average unit price (the G cell the closing yen value multiplies by), closing
+                    # balance in crypto and in yen, net income (each recognised on the asset-year sheet by its own formula)
+                    r_crypto, r_yen = closing[(first, year)]
+                    wanted = [f"='{target}'.G{r_yen}", f"='{target}'.I{r_crypto}", f"='{target}'.I{r_yen}"]
+                    if (first, year) in net_income:
+                        wanted.append(f"='{target}'.I{net_income[(first, year)]}")
+                    have_cells = [re.sub(r"^of:", "", f or "") for f in formulas[: len(wanted)]]
+                    if have_cells != wanted:
+                        out.fail(
+                            "jp_summary_line_wrong_cells",
+                            f"sheet '{name}' row {i + 1} (asset {first}): average price / closing crypto / closing yen / net income formulas are {have_cells}; the result cells of sheet '{target}' are {wanted}",
+                        )
+                        return out
             if sorted(listed) != assets_of_year:
                 out.fail("jp_summary_lines_mismatch", f"sheet '{name}' lists assets {listed}; assets with transactions in {year}: {assets_of_year}")
                 return out
